@@ -23,12 +23,23 @@ def check(ctx):
                                "replay_obj": {"property": "C05", "reason": r.reason, "signature": sig,
                                               "segment": [json.loads(x) for x in seg[:idx]]}})
     cov = cm.evidence(mc, gstats, summ, lines, nseg, nev, drift)
-    return conclude(ctx, "model_checking", cov, violations, ASSUME)
+    # the same property on real nodes over loopback TCP (public API, perturbed schedules)
+    nsumm, nnseg, nnev, nviol = cm.net_pipeline(ctx)
+    violations += nviol
+    cov["real_network"] = dict(nsumm, node_logs_validated=nnseg, events_validated=nnev)
+    cov["traces_validated_against_impl"] += nnseg
+    return conclude(ctx, "model_checking", cov, violations, ASSUME + [
+        "real-network runs: 3 nodes per world on 127.0.0.1, connection-open timeout 1 s, quiescence = no command/event on any "
+        "node for 5 s; worlds that do not calm down within 60 s are not judged"])
 
 
 def replay(ctx, path):
     obj = json.load(open(path))
     seg = [json.dumps(x, separators=(",", ":")) for x in obj["segment"]]
+    if obj.get("net"):
+        _, _, rej = validate_all(ctx, "NetDial.tla", "NetDial.cfg", seg + ['{"e":"quiesce"}'] if not seg[-1].count('"quiesce"') else seg)
+        log("replay (recorded real-network log): %s" % ("rejected: %s" % rej[0].reason if rej else "accepted"))
+        return 1 if rej else 0
     _, _, rej = validate_all(ctx, "ConnMgrTrace.tla", "ConnMgrTrace.cfg", seg)
     log("replay: %s" % ("rejected: %s" % rej[0].reason if rej else "accepted"))
     return 1 if rej else 0
